@@ -27,12 +27,34 @@
        guarantees: no quantifier of the result re-binds a name bound by an enclosing quantifier or
        contained in used_names - on every input, shadowing or not, without numeric quantifiers);
        global uniqueness across SIBLING quantifiers is false: C09_unique_siblings_refuted.
+   Proof extension 2 (files Logic/UniqueTotal.v, Logic/UniqueLevels.v, Logic/NormalForms.v):
+     * TOTALITY, FULL: C09_unique_total (ensure_unique returns for every fuel >= the computable
+       measure `ufuel f` <= 2*fsize f - 1, every used_names), C09_unique_total_fsize,
+       C09_unique_total_harness (the fuel 4*fsize f + 8 of the correspondence check always suffices),
+       C09_unique_fuel_independent (more fuel, same result), C09_first_free_least (the index search
+       of fresh_vars is the unbounded `while` loop: least free index, for every fuel > |used_names|);
+     * UNIQUENESS after ONE application, FULL for what the code guarantees: C09_unique_once = spine
+       uniqueness + LEVEL uniqueness (quantifiers with the same nearest enclosing quantifier bind
+       pairwise different names, at every level; outermost names fresh w.r.t. used_names and added
+       to it).  After TWO applications (parse_isla): the same and no more - C09_unique_twice_levels;
+       global uniqueness after two applications is REFUTED on input without shadowing:
+       C09_unique_twice_refuted (parse_isla returns y_1 twice; reproduced on /repo);
+     * NNF, FULL: C09_nnf_idempotent (under `push_stable`: z3_push_in_negations(., False) leaves its
+       own outputs and true/false alone), C09_nnf_shape_top / _deep (negations only on predicate atoms);
+     * DNF shape: the full statement `is_dnf (dnf f)` is REFUTED - C09_dnf_shape_refuted:
+       ((s or t) and not s) and r is returned unconverted (`return formula` when every argument has
+       one disjunct; reachable from parsed constraints, reproduced on /repo), so establish_invariant
+       can hand the solver a clause containing a disjunction; convert_to_dnf is not idempotent either
+       (C09_dnf_idempotent_refuted).  PARTIAL with guard = exactly that class (K_dnf_shortcut):
+       C09_dnf_shape_partial, C09_invariant_clauses_partial.  FULL: C09_dnf_dsafe (output satisfies
+       the precondition again), C09_dnf_clause_fixed (clauses are fixed points for deep=False).
    STILL PARTIAL / OPEN: establish_invariant raises on API-built NegatedFormula(combinator)
    inside an un-negated quantifier body (C09_invariant_refuted_not_nnf; not reachable from
-   parsed constraints); renaming inside K_shadow (refuted); totality of ensure_unique for the
-   fuel used by the harness is not stated (theorems assume `= Some`). *)
+   parsed constraints); renaming inside K_shadow (refuted); DNF shape inside K_dnf_shortcut
+   (refuted) and idempotence of convert_to_dnf outside it (not proved); shape theorems do not look
+   into quantifier bodies (deep=True conversions of bodies are covered by C09_dnf_dsafe only). *)
 From Coq Require Import List Bool NArith.
-From ISLA Require Import Rewrite RewriteFacts FreshFacts RewriteMore.
+From ISLA Require Import Rewrite RewriteFacts FreshFacts RewriteMore UniqueTotal UniqueLevels NormalForms.
 Import ListNotations.
 
 (* ---- negation inverts the verdict ---- *)
@@ -297,3 +319,178 @@ Theorem C09_unique_siblings_refuted : exists (f g : cform) u,
   Unique cops_t 40 f [] = Some (g, u) /\ bound_unique g = false.
 Proof. exact unique_siblings_refuted. Qed.
 Print Assumptions C09_unique_siblings_refuted.
+
+(* ================= proof extension 2: totality, uniqueness levels, normal-form shapes ============ *)
+
+(* ---- (1) totality of the fuelled model functions ---- *)
+(* `ufuel f`: atoms 1, negation/quantifier 1 + body, n-ary connective max(1, n-1) + sum of the
+   arguments (an n-ary connective is re-assembled as n-1 binary ones by substitute_variables).
+   ensure_unique_bound_variables returns for every fuel >= ufuel f, whatever used_names is. *)
+Theorem C09_unique_total : forall A (O : ops A) fuel (f : formula A) used,
+  ufuel f <= fuel -> exists g u, Unique O fuel f used = Some (g, u).
+Proof. exact unique_total. Qed.
+Print Assumptions C09_unique_total.
+
+Theorem C09_unique_total_fsize : forall A (O : ops A) fuel (f : formula A) used,
+  2 * fsize f <= fuel -> exists g u, Unique O fuel f used = Some (g, u).
+Proof. exact unique_total_fsize. Qed.
+Print Assumptions C09_unique_total_fsize.
+
+(* the entry point evaluated by the correspondence check (fuel 4 * fsize f + 8, used_names = {}) *)
+Theorem C09_unique_total_harness : forall f : cform, exists g, c_unique f = Some g.
+Proof. exact c_unique_total. Qed.
+Print Assumptions C09_unique_total_harness.
+
+(* the result does not depend on the fuel once it is returned *)
+Theorem C09_unique_fuel_independent : forall A (O : ops A) k k' (f : formula A) used r,
+  k <= k' -> Unique O k f used = Some r -> Unique O k' f used = Some r.
+Proof. exact unique_fuel_mono. Qed.
+Print Assumptions C09_unique_fuel_independent.
+
+(* `while proposal_idx in used_names: idx += 1`: for every fuel > |used_names| the model returns the
+   least index whose name is free, i.e. the fuel `S (length used)` of fresh_vars is not a restriction
+   (fresh_vars itself is structurally recursive) *)
+Theorem C09_first_free_least : forall p used fuel, S (length used) <= fuel ->
+  let r := first_free fuel p used 0%N in
+  mem_str (idx_name p r) used = false /\
+  (forall j, (j < r)%N -> mem_str (idx_name p j) used = true) /\
+  r = first_free (S (length used)) p used 0%N.
+Proof. exact first_free_least. Qed.
+Print Assumptions C09_first_free_least.
+
+(* ---- (2) what uniqueness one / two applications guarantee ---- *)
+(* `tops g`: names bound by the outermost quantifiers of g; `level_unique g`: these are pairwise
+   different, and so are the outermost names of every quantifier body, recursively.
+   ONE application, every input without numeric quantifiers (shadowing or not), any used_names:
+   spine uniqueness, level uniqueness, outermost names not in used_names and recorded in the
+   caller's set, which only grows.  Two quantifiers of the result can therefore share a name only
+   across different branches with at least one of them nested deeper than the branching level. *)
+Theorem C09_unique_once : forall A (O : ops A) fuel (f : formula A) used g u,
+  Unique O fuel f used = Some (g, u) -> no_int_quant f = true -> binders_bound f ->
+  K_shadow used g = false /\ level_unique g = true /\
+  (forall n, In n (tops g) -> ~ In n used /\ In n u) /\ incl used u.
+Proof. exact unique_once. Qed.
+Print Assumptions C09_unique_once.
+
+Example C09_unique_once_nonvacuous :
+  no_int_quant w_twice = true /\ binders_bound w_twice /\
+  exists g u, Unique cops_t 40 w_twice [] = Some (g, u) /\ g <> w_twice /\ level_unique g = true.
+Proof. exact unique_once_nonvacuous. Qed.
+Print Assumptions C09_unique_once_nonvacuous.
+
+(* TWO applications (parse_isla: exitStart applies the function twice, each time with an empty
+   used_names): the result of the first is an admissible input of the second, so the guarantee of
+   one application holds again ... *)
+Theorem C09_unique_twice_levels : forall A (O : ops A) k1 k2 (f : formula A) used1 used2 g1 u1 g2 u2,
+  Unique O k1 f used1 = Some (g1, u1) -> Unique O k2 g1 used2 = Some (g2, u2) ->
+  no_int_quant f = true -> binders_bound f ->
+  K_shadow used2 g2 = false /\ level_unique g2 = true.
+Proof. exact unique_twice_levels. Qed.
+Print Assumptions C09_unique_twice_levels.
+
+(* ... and nothing more.  FULL STATEMENT (false): after two applications all quantifiers bind
+   pairwise different names, for formulas without shadowing.  Refutation:
+   ((forall x in start: ((forall y in x: A) and (forall y in x: B))) and
+    (forall w in start: forall y_0 in w: C)) and (forall y_1 in start: D)
+   1st: x y y_0 | w y_0 | y_1,  2nd: x y y_0 | w y_1 | y_1.  parse_isla on this text returns the
+   binders x, y, y_0, w, y_1, y_1 (design_notes/C09.md). *)
+Theorem C09_unique_twice_refuted : exists (f g1 g2 : cform) u1 u2,
+  K_shadow [] f = false /\ no_int_quant f = true /\ binders_bound f /\
+  Unique cops_t 40 f [] = Some (g1, u1) /\ Unique cops_t 40 g1 [] = Some (g2, u2) /\
+  bound_unique g2 = false /\
+  map vname (bvars catom g2) = map vname [v_x; v_y; v_y0; v_w; v_y1; v_y1].
+Proof. exact unique_twice_refuted. Qed.
+Print Assumptions C09_unique_twice_refuted.
+
+(* ---- (3) normal forms: idempotence and shape ---- *)
+(* convert_to_nnf is idempotent (exact AST equality).  Premise about z3 (`push_stable`):
+   z3_push_in_negations(a, False) = a for every a that is itself a result of
+   z3_push_in_negations, and for true / false. *)
+Theorem C09_nnf_idempotent : forall A (O : ops A), push_stable O ->
+  forall (f : formula A) neg, Nnf O (Nnf O f neg) false = Nnf O f neg.
+Proof. exact nnf_idempotent. Qed.
+Print Assumptions C09_nnf_idempotent.
+
+Example C09_nnf_idempotent_nonvacuous : push_stable cops.
+Proof. exact push_stable_cops. Qed.
+Print Assumptions C09_nnf_idempotent_nonvacuous.
+
+(* outside quantifier bodies every NegatedFormula of the output sits on a predicate atom ... *)
+Theorem C09_nnf_shape_top : forall A (O : ops A) (f : formula A) neg,
+  is_nnf false (Nnf O f neg) = true.
+Proof. exact nnf_shape_top. Qed.
+Print Assumptions C09_nnf_shape_top.
+
+(* ... and everywhere, if the quantifier bodies convert_to_nnf does not traverse are in nnf already *)
+Theorem C09_nnf_shape_deep : forall A (O : ops A) (f : formula A) neg,
+  bodies_nnf neg f = true -> is_nnf true (Nnf O f neg) = true.
+Proof. exact nnf_shape_deep. Qed.
+Print Assumptions C09_nnf_shape_deep.
+
+Example C09_nnf_shape_deep_nonvacuous :
+  bodies_nnf false (FAnd [FNot (FForall v_x (InVar v_start) None (FNot (FAnd [p_s; p_t])));
+                          FExists v_x (InVar v_start) None (FOr [FNot p_s; p_t])] : cform) = true.
+Proof. exact nnf_shape_deep_nonvacuous. Qed.
+Print Assumptions C09_nnf_shape_deep_nonvacuous.
+
+(* FULL STATEMENT (false): the output of convert_to_dnf is a disjunction of clauses
+   (`is_dnf g`: no disjunct of split_disjunction(g) contains a disjunction below conjunctions), and
+   hence establish_invariant returns clauses only.
+   Refutation: f = ((s or t) and not s) and r (structural predicate atoms; what `&` builds for the
+   text `(s or t) and not s and r`): the inner conjunction converts to the single disjunct
+   `t and not s` (s and not s simplifies to false), so every argument of the outer conjunction has one
+   disjunct and convert_to_dnf returns f itself, which contains `s or t`.  Reproduced on /repo. *)
+Theorem C09_dnf_shape_refuted : exists f : cform,
+  arity_ok catom f = true /\ K_dnf_not_nnf f = false /\ Nnf cops f false = f /\
+  Dnf cops true f = Ok f /\ Dnf cops false f = Ok f /\ is_dnf f = false /\
+  Invariant cops f = Ok [f] /\ K_dnf_shortcut cops f = true.
+Proof. exact dnf_shape_refuted. Qed.
+Print Assumptions C09_dnf_shape_refuted.
+
+(* PARTIAL, guard = exactly the refuted class: `K_dnf_shortcut O f = false` - every conjunction
+   convert_to_dnf visits outside quantifier bodies either consists of clauses or has an argument with
+   more than one disjunct.  Then the output is in DNF, deep or not. *)
+Theorem C09_dnf_shape_partial : forall A (O : ops A) (f : formula A) deep g,
+  K_dnf_shortcut O f = false -> Dnf O deep f = Ok g -> is_dnf g = true.
+Proof. exact dnf_shape_partial. Qed.
+Print Assumptions C09_dnf_shape_partial.
+
+Theorem C09_invariant_clauses_partial : forall A (O : ops A) (f : formula A) l,
+  K_dnf_shortcut O (Nnf O f false) = false -> Invariant O f = Ok l -> forallb or_free l = true.
+Proof. exact invariant_clauses_partial. Qed.
+Print Assumptions C09_invariant_clauses_partial.
+
+Example C09_dnf_shape_partial_nonvacuous :
+  K_dnf_shortcut cops w_nary = false /\
+  exists g, Dnf cops false w_nary = Ok g /\ g <> w_nary /\ is_dnf g = true.
+Proof. exact dnf_shape_partial_nonvacuous. Qed.
+Print Assumptions C09_dnf_shape_partial_nonvacuous.
+
+(* the output of convert_to_dnf satisfies the precondition of convert_to_dnf again (no
+   NegatedFormula on a connective at any visited position), on every input *)
+Theorem C09_dnf_dsafe : forall A (O : ops A) (f : formula A) deep g,
+  dsafe f = true -> Dnf O deep f = Ok g -> dsafe g = true.
+Proof. exact dnf_dsafe. Qed.
+Print Assumptions C09_dnf_dsafe.
+
+(* clauses are fixed points of convert_to_dnf(., deep=False) *)
+Theorem C09_dnf_clause_fixed : forall A (O : ops A) (f : formula A),
+  dsafe f = true -> or_free f = true -> Dnf O false f = Ok f.
+Proof. exact dnf_clause_fixed. Qed.
+Print Assumptions C09_dnf_clause_fixed.
+
+Example C09_dnf_clause_fixed_nonvacuous :
+  let c : cform := FAnd [FAnd [p_s; FNot p_t]; FForall v_x (InVar v_start) None (FOr [p_s; p_t])] in
+  dsafe c = true /\ or_free c = true /\ is_dnf c = true.
+Proof. exact dnf_clause_fixed_nonvacuous. Qed.
+Print Assumptions C09_dnf_clause_fixed_nonvacuous.
+
+(* FULL STATEMENT (false): convert_to_dnf(convert_to_dnf(f)) = convert_to_dnf(f).  Refutation:
+   (u or v) and (((s or t) and not s) and r): 2 disjuncts (each still containing `s or t`), converting
+   again gives 4.  Reproduced on /repo from a parsed constraint. *)
+Theorem C09_dnf_idempotent_refuted : exists f g h : cform,
+  arity_ok catom f = true /\ Nnf cops f false = f /\
+  Dnf cops false f = Ok g /\ Dnf cops false g = Ok h /\ c_seqb g h = false /\
+  length (split_disj catom g) = 2 /\ length (split_disj catom h) = 4 /\ is_dnf g = false.
+Proof. exact dnf_idempotent_refuted. Qed.
+Print Assumptions C09_dnf_idempotent_refuted.
